@@ -7,15 +7,78 @@
 (* (selfok): an archive the reference itself cannot read would be a defect of the model, not of    *)
 (* the library.  TLC also picks the absent names to probe: one that collides with the first file's *)
 (* home slot (if the pool has one), one arbitrary.                                                 *)
-EXTENDS MpqFormat, Json, IOUtils, TLC
+EXTENDS MpqFormatHB, Json, IOUtils, TLC
 
 Rec == ndJsonDeserialize(IOEnv.WCASES)
 
 Prefix(len, user) == IF user /\ len >= 16 THEN UserDataPrefix(len) ELSE [pi \in 1..len |-> (pi * 7) % 251]
 CfgOf(r)   == [ver |-> r.cfg.ver, shift |-> r.cfg.shift, hcount |-> r.cfg.hcount, ndel |-> r.cfg.ndel,
-               hibt |-> r.cfg.hibt, prefix |-> Prefix(r.cfg.prefixlen, r.cfg.userdata)]
+               hibt |-> r.cfg.hibt, prefix |-> Prefix(r.cfg.prefixlen, r.cfg.userdata),
+               \* growth round 4: HET/BET tables, V4 header
+               hetbet |-> r.cfg.hetbet, classic |-> r.cfg.classic, ghost |-> r.cfg.ghost, hbits |-> r.cfg.hbits, hettotal |-> r.cfg.hettotal,
+               iextra |-> r.cfg.iextra, hextra |-> r.cfg.hextra, slack |-> r.cfg.slack,
+               hetstored |-> r.cfg.hetstored, betstored |-> r.cfg.betstored]
 FileOf(f)  == [name |-> f.nb, locale |-> f.locale, crc |-> f.crc, fsize |-> f.fsize, enc |-> f.enc, single |-> f.single, cflag |-> f.cflag,
                sectors |-> [si \in 1..Len(f.sectors) |-> [m |-> f.sectors[si].m, p |-> f.sectors[si].p]]]
+
+\* ---- growth round 4 --------------------------------------------------------------------------
+\* Pass 1 (r.xpass = 1) of an archive whose HET/BET tables are to be stored compressed: the plain table bodies, for Python's
+\* zlib/bz2; pass 2 receives them back as cfg.hetstored / cfg.betstored (method byte + stream).
+BlocksOf(files, cfg) ==
+  FoldLeft(LAMBDA st, fi : WAppendFile(st, files[fi], cfg, Std), WBeginX4(files, cfg), [fi \in 1..Len(files) |-> fi]).blocks
+Bodies(r) ==
+  LET cfg == CfgOf(r)
+      files == [fi \in 1..Len(r.files) |-> FileOf(r.files[fi])]
+  IN  [case |-> r.case, hetbody |-> HetBody(NamesOf(files), cfg, XStd), betbody |-> BetBody(NamesOf(files), BlocksOf(files, cfg), cfg, XStd)]
+
+\* where Python's hashlib has to put the six digests of a V4 header: ranges in file coordinates, header digest last
+Md5Plan(bytes) ==
+  LET ar == OpenArchiveX(bytes)
+      rgs == Md5Ranges(ar.hn, ar.hx)
+  IN  [gi \in 1..Len(rgs) |-> [what |-> rgs[gi].what, lo |-> ar.base + rgs[gi].lo, len |-> rgs[gi].len, at |-> ar.base + rgs[gi].at]]
+
+\* the reference reads its own V3/V4 archive back: header, tables (plain bodies as the writer made them), every file through
+\* HET/BET and - where present - through the classic tables, both giving the same sectors
+SelfOkX(std, files, cfg, ssize) ==
+  LET ar == OpenArchiveX(std)
+      et == XTablesOfArchive(std, ar)
+      xt == XTables(HetBody(NamesOf(files), cfg, XStd), BetBody(NamesOf(files), BlocksOf(files, cfg), cfg, XStd))
+      viaX(f) == RefReadFileX(std, ar.base, ar.hn.shift, xt, f.name, Std, XStd)
+      ht == HashTableOf(std, ar.base, ar.hn)
+      bt == BlockTableOf(std, ar.base, ar.hn)
+      viaC(f) == RefReadFile(std, ar, ht, bt, f.name, Std)
+      good(dec, f) == dec.res = "ok" /\ dec.crc \in {"none", "ok"} /\ dec.sectors = ExpectSectors(f, ssize) /\ dec.fsize = f.fsize
+  IN  /\ ar.res = "ok" /\ ar.base = Len(cfg.prefix) /\ HeaderOkX(ar, XStd)
+      /\ (cfg.hetbet =>
+            /\ et.het.res = "ok" /\ et.bet.res = "ok"
+            /\ (cfg.hetstored = <<>> => et.het.m = -1 /\ et.het.p = xt.hb) /\ (cfg.hetstored # <<>> => et.het.m = cfg.hetstored[1])
+            /\ (cfg.betstored = <<>> => et.bet.m = -1 /\ et.bet.p = xt.bb) /\ (cfg.betstored # <<>> => et.bet.m = cfg.betstored[1])
+            /\ HetConforms(xt.het, et.het.dsize, XStd) /\ BetConforms(xt.bet, et.bet.dsize, XStd) /\ HetBetAgree(xt.het, xt.bet, XStd)
+            /\ XSlotsOk(xt, XStd)
+            /\ \A fi \in 1..Len(files) : good(viaX(files[fi]), files[fi]))
+      /\ (cfg.classic /\ ~cfg.ghost => \A fi \in 1..Len(files) : files[fi].locale = 0 => good(viaC(files[fi]), files[fi]))
+      /\ (cfg.classic /\ cfg.ghost => \A fi \in 1..Len(files) : viaC(files[fi]).res = "notfound")
+
+EncodeX(r) ==
+  LET cfg   == CfgOf(r)
+      ssize == SectorSize(cfg.shift)
+      files == [fi \in 1..Len(r.files) |-> FileOf(r.files[fi])]
+      wf    == \A fi \in 1..Len(files) : FileWellFormed(files[fi], ssize)
+      std   == RefWriteX(files, cfg, Std, XStd)
+      \* one variant archive: the same files with the tables and header as the library under test lays them out (x-dialect XLib)
+      lib   == IF cfg.hetbet THEN << RefWriteX(files, [cfg EXCEPT !.hetstored = <<>>, !.betstored = <<>>], Std, XLib) >> ELSE <<>>
+      pool   == r.absentpool
+      \* absent names: one that starts its HET probe on the first file's start slot (if the pool has one), one arbitrary
+      startOf(nm) == HetStart(MaskedHash(JenkinsBits(nm, XStd), cfg.hbits, XStd), cfg.hettotal, XStd)
+      coll   == IF cfg.hetbet THEN {ai \in 1..Len(pool) : startOf(pool[ai]) = startOf(files[1].name)}
+                ELSE {ai \in 1..Len(pool) : HomeSlot(pool[ai], cfg.hcount) = HomeSlot(files[1].name, cfg.hcount)}
+      a1     == IF coll = {} THEN 1 ELSE CHOOSE ai \in coll : \A a2 \in coll : ai <= a2
+      a2     == IF a1 = Len(pool) THEN 1 ELSE Len(pool)
+  IN  [ case |-> r.case, selfok |-> wf /\ SelfOkX(std, files, cfg, ssize),
+        std |-> std, vars |-> lib,
+        labels |-> [fi \in 1..Len(files) |-> IF cfg.hetbet THEN << <<"libhetbet">> >> ELSE <<>>],
+        absent |-> <<a1, a2>>,
+        md5 |-> Md5Plan(std), varmd5 |-> [vj \in 1..Len(lib) |-> Md5Plan(lib[vj])] ]
 
 Encode(r) ==
   LET cfg   == CfgOf(r)
@@ -52,7 +115,11 @@ Encode(r) ==
         labels |-> [fi \in 1..Len(files) |-> [vj \in 1..Len(subs[fi]) |-> LabelSeq(subs[fi][vj])]],
         absent |-> <<a1, a2>> ]
 
-Out == [ri \in 1..Len(Rec) |-> Encode(Rec[ri])]
+EncodeAny(r) == IF r.xpass = 1 THEN Bodies(r)
+                ELSE IF r.cfg.hetbet \/ r.cfg.ver = 3 THEN EncodeX(r)
+                ELSE Encode(r) @@ [md5 |-> <<>>, varmd5 |-> <<>>]
+
+Out == [ri \in 1..Len(Rec) |-> EncodeAny(Rec[ri])]
 ASSUME ndJsonSerialize(IOEnv.OUT, Out)
 ASSUME PrintT(<<"ENCODED", Len(Rec)>>)
 =============================================================================
